@@ -24,6 +24,8 @@ import Bermuda.Lemmas.ExtendSpecBackfillClauses
 import Bermuda.Lemmas.ExtendSpecDiagHist
 import Bermuda.Lemmas.ExtendTotal
 import Bermuda.Lemmas.ExtendExamples
+import Bermuda.Lemmas.ExtendSpecTriUnit
+import Bermuda.Lemmas.ExtendFillTotal
 import Bermuda.Spec.C15
 namespace Bermuda.Properties.C15
 open Bermuda Bermuda.Extend
@@ -1088,5 +1090,125 @@ theorem exFill_fill_ok :
   refine ⟨out, h, ?_, extensionSpec_model_fill h exFill_domain (fun res hres => by cases hres; decide)⟩
   have := (Properties.C01.ofCells_perm hout).length_eq
   simpa using this
+
+/-! ### the Bool bridge of the right triangle for the day unit -/
+
+/-- **extensionSpec_model_rightTri_day**: ALL executable clauses of `rightTriSpec` hold of the model's right triangle
+for `dev_lag_unit = "day"`, both bases, under the hypotheses of `lagMonotone_day` on the cumulative form `cum` of
+`t` (`cum = t` for a cumulative input): valid period-end and evaluation dates, integer requested lags (a fractional
+day lag is floored by `timedelta`), results inside `date.min .. date.max`. -/
+theorem extensionSpec_model_rightTri_day {t out cum : List Cell} {lags : Option (List Rat)}
+    (h : makeRightTriangleU t lags (some .day) = .ok out) (hcum : CumOf t cum)
+    (hval : ∀ c ∈ cum, c.pe.valid = true ∧ c.ev.valid = true)
+    (hint : ∀ l, lags = some l → ∀ lag ∈ l, ∃ k : Int, lag = ((k : Int) : Rat))
+    (hrange : ∀ p ∈ Triangle.slices cum, ∀ e ∈ p.2, ∀ lag ∈ lagListOf lags .day p.2,
+      1 ≤ e.pe.ordinal + lag.floor ∧ e.pe.ordinal + lag.floor ≤ 3652059) :
+    Spec.C15.allHold (Spec.C15.rightTriSpec t lags .day out) = true := by
+  obtain ⟨cum', new, hf⟩ := rightTri_facts h
+  have hcc : cum' = cum := hcum.unique hf.cumOf
+  subst hcc
+  have hord := lagOrder_day hval
+  have hinj := lagInj_day hint hrange
+  have hmono := lagMonotone_day hval hint hrange
+  have hafter : ∀ c ∈ out, ∀ o ∈ t, rowKey o = rowKey c → o.ev < c.ev := by
+    intro c hc o ho hk
+    obtain ⟨k1, k2, k3⟩ := rowKey_eq_iff.mp hk
+    exact rightTri_disjoint_of_monotone h hcum hmono hc ho k1 k2 k3
+  have hrow : ∀ c ∈ out, ∃ x ∈ t, rowKey x = rowKey c := by
+    intro c hc
+    obtain ⟨x, hx, h1, h2, h3, _⟩ := rightTri_metadata h hc
+    exact ⟨x, hx, rowKey_eq_iff.mpr ⟨h1.symm, h2.symm, h3.symm⟩⟩
+  have h1 := spec_disjoint hafter
+  have h2 := spec_afterLatest hrow hafter
+  have h3 := spec_rightTri_onGrid_u hf hord
+  have h4 := spec_rightTri_complete_u hf (by decide)
+  have h5 := spec_valuesEmpty (spec_values_of_facts hf.empties hf.cumPerm hf.chain)
+  have h6 := spec_basis hf.empties hf.cumPerm hf.chain
+  have h7 := spec_chain hf.chain hf.fwd hf.bwd
+  have h8 := spec_rightTri_emptyWhenComplete_u hf hord
+  have h9 := finishRight_canonical (fun n hn => (hf.empties n hn).1) hf.newOk hf.fin
+  cases lags with
+  | none =>
+    have hn := rightTri_nodupCoords_u hf hinj (fun l hl => by cases hl)
+    simp only [Spec.C15.allHold, Spec.C15.rightTriSpec, List.all_cons, List.all_nil,
+      h1, h2, h3, h4, h5, h6, h7, h8, h9, hn, Bool.and_self, Bool.or_true]
+  | some l =>
+    cases hd : Spec.C15.nodupList l with
+    | false =>
+      simp only [Spec.C15.allHold, Spec.C15.rightTriSpec, List.all_cons, List.all_nil,
+        h1, h2, h3, h4, h5, h6, h7, h8, h9, hd, Bool.and_self, Bool.not_false, Bool.true_or]
+    | true =>
+      have hn := rightTri_nodupCoords_u hf hinj (fun l' hl' => by cases hl'; exact nodupList_nodup l hd)
+      simp only [Spec.C15.allHold, Spec.C15.rightTriSpec, List.all_cons, List.all_nil,
+        h1, h2, h3, h4, h5, h6, h7, h8, h9, hn, Bool.and_self, Bool.or_true]
+
+/-! ### `fill_forward_gaps` succeeds -/
+
+/-- **fill_total**: on the domain `SpecDomain t`, for a (given or inferred) resolution that is compatible in the sense
+of the executable `fillCompatible` (positive, dividing every within-row lag difference), `fill_forward_gaps` RETURNS —
+the lookup `period_cells[lag - eval_resolution]` never misses — as soon as no constructor call raises (moving an
+observed cell to an integer lag strictly between its own lag and a lag of its row gives a valid cell), and the whole
+`fillSpec` holds of the result. -/
+theorem fill_total {t : List Cell} {res? : Option Int} {nf : Bool} {res : Int} (hD : SpecDomain t)
+    (hres : resolvedRes t res? = some res) (hcomp : Spec.C15.fillCompatible t res = true)
+    (hctor : ∀ o ∈ t, ∀ l ∈ t, rowKey l = rowKey o → ∀ x : Int, o.devLag < ((x : Int) : Rat) →
+      ((x : Int) : Rat) < l.devLag → ({ o with ev := addMonths o.pe ((x : Int) : Rat) } : Cell).datesOk = true) :
+    ∃ out, fillForwardGaps t res? nf = .ok out ∧
+      Spec.C15.allHold (Spec.C15.fillSpec t res? nf out) = true := by
+  obtain ⟨hpos, hgrid⟩ := gridRow_of_compatible hD hcomp
+  obtain ⟨out, h⟩ := fillForwardGaps_total (nf := nf) hD.canonical.2.1 hres hpos hgrid hctor
+  exact ⟨out, h, extensionSpec_model_fill h hD (fun r hr => by rw [hres] at hr; cases hr; exact hpos)⟩
+
+/-- the hypotheses of `fill_total` are satisfiable and not vacuous: on `exFill` (lags 0 and 2, resolution 1) the
+constructor hypothesis concerns exactly the lag 1 -/
+theorem exFill_total :
+    ∃ out, fillForwardGaps exFill (some 1) true = .ok out ∧
+      Spec.C15.allHold (Spec.C15.fillSpec exFill (some 1) true out) = true := by
+  apply fill_total exFill_domain rfl (by decide +kernel)
+  intro o ho l hl _ x h1 h2
+  have d1 : exF1.devLag = ((0 : Int) : Rat) := by decide +kernel
+  have d2 : exF2.devLag = ((2 : Int) : Rat) := by decide +kernel
+  simp only [exFill, List.mem_cons, List.not_mem_nil, or_false] at ho hl
+  rcases ho with rfl | rfl <;> rcases hl with rfl | rfl
+  · rw [d1] at h1 h2
+    have a : (0 : Int) < x := by exact_mod_cast h1
+    have b : x < (0 : Int) := by exact_mod_cast h2
+    omega
+  · rw [d1] at h1; rw [d2] at h2
+    have a : (0 : Int) < x := by exact_mod_cast h1
+    have b : x < (2 : Int) := by exact_mod_cast h2
+    have : x = 1 := by omega
+    subst this
+    decide +kernel
+  · rw [d2] at h1; rw [d1] at h2
+    have a : (2 : Int) < x := by exact_mod_cast h1
+    have b : x < (0 : Int) := by exact_mod_cast h2
+    omega
+  · rw [d2] at h1 h2
+    have a : (2 : Int) < x := by exact_mod_cast h1
+    have b : x < (2 : Int) := by exact_mod_cast h2
+    omega
+
+/-- closed instance for the day unit: the right triangle of `exCells` in days exists and satisfies the whole Spec -/
+theorem exCells_rightTri_day_ok :
+    ∃ out, makeRightTriangleU exCells none (some .day) = .ok out ∧
+      Spec.C15.allHold (Spec.C15.rightTriSpec exCells none .day out) = true := by
+  obtain ⟨out, h⟩ : ∃ out, makeRightTriangleU exCells none (some .day) = .ok out := by
+    apply makeRightTriangle_ok (by decide) (by decide +kernel) rfl
+    intro e he l hl hgt ev hev
+    rcases hl with ⟨ls, hls, _⟩ | ⟨_, o, ho, _, rfl⟩
+    · cases hls
+    · cases hev
+      simp only [exCells, List.mem_cons, List.not_mem_nil, or_false] at he ho
+      rcases he with rfl | rfl | rfl <;> rcases ho with rfl | rfl | rfl <;> revert hgt <;> decide +kernel
+  refine ⟨out, h, extensionSpec_model_rightTri_day h (Or.inl ⟨rfl, rfl⟩) (by decide +kernel)
+    (fun l hl => by cases hl) ?_⟩
+  intro p hp e he lag hlag
+  have het := mem_of_mem_slices hp he
+  simp only [lagListOf, List.mem_eraseDups] at hlag
+  obtain ⟨o, ho, rfl⟩ := List.mem_map.mp hlag
+  have hot := mem_of_mem_slices hp ho
+  simp only [exCells, List.mem_cons, List.not_mem_nil, or_false] at het hot
+  rcases het with rfl | rfl | rfl <;> rcases hot with rfl | rfl | rfl <;> decide +kernel
 
 end Bermuda.Properties.C15
